@@ -257,3 +257,23 @@ def rmul(a, b):
     if z3.is_rational_value(sa) or z3.is_rational_value(sb) or z3.is_int_value(sa) or z3.is_int_value(sb):
         return a * b
     return rmulf(a, b)
+
+
+# a non-negative number times a fraction stays between 0 and the number (train_size = int(n * (1 - test_size)))
+axiom('rmul.frac', forall([x, y], z3.Implies(z3.And(x >= 0, y >= 0, y <= 1), z3.And(rmulf(x, y) >= 0, rmulf(x, y) <= x)),
+                          [rmulf(x, y)]), ['rprod'], 'algebra')
+
+# slices of Python lists / 1-D arrays with in-range bounds
+aslice = F('aslice', ASeq, Int, Int, ASeq)
+rslice = F('rslice', RSeq, Int, Int, RSeq)
+_lo, _hi = z3.Ints('lo hi')
+axiom('aslice.len', forall([s, _lo, _hi], z3.Implies(z3.And(0 <= _lo, _lo <= _hi, _hi <= alen(s)),
+                                                     alen(aslice(s, _lo, _hi)) == _hi - _lo), [aslice(s, _lo, _hi)]), ['aslice'])
+axiom('aslice.at', forall([s, _lo, _hi, i], z3.Implies(z3.And(0 <= _lo, 0 <= i, _lo + i < _hi, _hi <= alen(s)),
+                                                       aat(aslice(s, _lo, _hi), i) == aat(s, _lo + i)),
+                          [aat(aslice(s, _lo, _hi), i)]), ['aslice'])
+axiom('rslice.len', forall([r, _lo, _hi], z3.Implies(z3.And(0 <= _lo, _lo <= _hi, _hi <= rlen(r)),
+                                                     rlen(rslice(r, _lo, _hi)) == _hi - _lo), [rslice(r, _lo, _hi)]), ['rslice'])
+axiom('rslice.at', forall([r, _lo, _hi, i], z3.Implies(z3.And(0 <= _lo, 0 <= i, _lo + i < _hi, _hi <= rlen(r)),
+                                                       rat(rslice(r, _lo, _hi), i) == rat(r, _lo + i)),
+                          [rat(rslice(r, _lo, _hi), i)]), ['rslice'])
